@@ -9,6 +9,7 @@ mod der;
 mod prefixlaws;
 mod reschain;
 mod rfc1982;
+mod rtrsession;
 mod slurm;
 mod urialg;
 mod x509time;
@@ -30,6 +31,8 @@ fn main() {
         ("replay", "prefixlaws") => prefixlaws::replay(rest),
         ("replay", "urialg") => urialg::replay(rest),
         ("replay", "slurm") => slurm::replay(rest),
+        ("replay", "rtrsession") => rtrsession::replay(rest),
+        ("drive", "rtrsession") => rtrsession::drive(rest),
         ("replay", "x509time") => x509time::replay(rest),
         ("native", "x509time") => x509time::native(rest),
         ("drive", "x509time") => x509time::drive(rest),
